@@ -24,3 +24,8 @@ Definition run_togeo (min_step dtrl small : float) mv mf mb mp rv rf rb rp
 Definition run_fromgeo (min_step small true_step alpha range lambda : float) (gs : list float) : list float :=
   map (msc_from_geo min_step small true_step alpha range lambda) gs.
 Definition run_msc_mfp mv mf mb mp (e : float) : float := msc_mfp (mk mv mf mb mp) e.
+
+(** ValueGridXsBuilder::build: stored prime index (soft_equal tolerances 1e-12 / 1e-14) *)
+From Celer Require Import C14.Builder.
+Definition run_build_prime (lmin le lmax : float) (n : Z) : Z :=
+  build_prime_index 0x1.19799812dea11p-40%float 0x1.6849b86a12b9bp-47%float lmin le lmax n.
